@@ -18,6 +18,8 @@ type degrader struct {
 	log    map[string]int
 	extra  []Def
 	nAuto  int
+
+	inNullable bool
 }
 
 func degradeDefs(d *Defs, format string, level int) (*Defs, []string) {
@@ -59,6 +61,19 @@ func (g *degrader) ty(s *Src, attrOK bool) *Src {
 			g.log["const.bool→bool"]++
 			return srcBool()
 		}
+	case SEnumS:
+		// cue level 2: `null | "a" | "b"` → `null | #AutoEnumN`
+		if g.format == "cue" && !attrOK && g.level >= 2 && g.inNullable && len(s.EnumS) > 1 {
+			g.nAuto++
+			name := fmt.Sprintf("AutoEnum%d", g.nAuto)
+			for g.d.lookup(name) != nil {
+				g.nAuto++
+				name = fmt.Sprintf("AutoEnum%d", g.nAuto)
+			}
+			g.extra = append(g.extra, Def{name, s})
+			g.log["nullable.enumS.inline→ref"]++
+			return srcRef(name)
+		}
 	case SEnumI:
 		if g.format == "cue" && !attrOK {
 			g.nAuto++
@@ -82,7 +97,9 @@ func (g *degrader) ty(s *Src, attrOK bool) *Src {
 	case SStruct:
 		for i := range s.Fields {
 			f := &s.Fields[i]
+			g.inNullable = f.Nullable
 			f.Ty = g.ty(f.Ty, !f.Nullable)
+			g.inNullable = false
 			g.field(f)
 		}
 	}
@@ -99,6 +116,12 @@ func (g *degrader) field(f *Field) {
 				f.Default = nil
 			} else if g.level >= 2 && (k == SEnumS || k == SEnumI || k == SStruct || k == SOneOfScalars) {
 				g.log["default."+k.String()+"→dropped"]++
+				f.Default = nil
+			}
+		case "cue":
+			if g.level >= 2 && k == SStruct {
+				// Python output for a default on an inline struct is not Python (Go %#v syntax)
+				g.log["default.struct.inline→dropped"]++
 				f.Default = nil
 			}
 		case "openapi":
